@@ -57,7 +57,8 @@ func c13Policies(ctx *core.Ctx) [][]spec.Op {
 			spec.Op{K: spec.KAllowAttrs, Attrs: []string{"id"}, Re: `^x-[a-z0-9]*$`, Scope: "match", ElRe: `^my-x$`},
 			spec.Op{K: spec.KAllowStyles, Attrs: []string{"color", "width"}, Matcher: "default", Scope: "global"},
 			spec.Op{K: spec.KAllowStyles, Attrs: []string{"color", "margin"}, Matcher: "re", Re: `^[a-z]+$`, Scope: "match", ElRe: `^my-`},
-			spec.Op{K: spec.KAllowStyles, Attrs: []string{"color"}, Matcher: "enum", Enum: []string{"red", "blue"}, Scope: "match", ElRe: `-`},
+			spec.Op{K: spec.KAllowStyles, Attrs: []string{"color"}, Matcher: "enum", Enum: []string{"red", "Blue", "LEFT"}, Scope: "match", ElRe: `-`},
+			spec.Op{K: spec.KAllowStyles, Attrs: []string{"float", "clear"}, Matcher: "enum", Enum: []string{"Left", "RIGHT", "none"}, Scope: "global"},
 			spec.Op{K: spec.KAllowStyles, Attrs: []string{"float"}, Matcher: "handler", Handler: "short", Scope: "els", Names: []string{"div", "span"}},
 			// the same attribute bound by name with a pattern first and without one later
 			spec.Op{K: spec.KAllowAttrs, Attrs: []string{"title", "lang"}, Re: `^[a-z]+$`, Scope: "els", Names: []string{"p", "div", "span", "a"}},
